@@ -159,6 +159,33 @@ def build_ops(ck, tmp, n):
             with open(pj, "w") as fh:
                 json.dump(desc, fh)
             ops.append({"kind": "create", "input": pj, "twin": len(ops), "designed": j})
+    # hierarchies whose dependency is an INLINE description, referred to three times (embedded, hashed, measured): as YAML with an
+    # anchor and two aliases, as JSON with three copies.  Many of them in one long history: whatever the tool remembers about a
+    # description object it has finished with (its address, say) meets other objects later
+    for j in range(8):
+        dd = os.path.join(tmp, f"nested{j}")
+        os.makedirs(dd, exist_ok=True)
+        dep = {"SUIT_Envelope_Tagged": {
+            "suit-authentication-wrapper": {"SuitDigest": {"suit-digest-algorithm-id": "cose-alg-sha-256"}},
+            "suit-manifest": {"suit-manifest-version": 1, "suit-manifest-sequence-number": 100 + j,
+                              "suit-common": {"suit-components": [["D", j]]}, "suit-reference-uri": "x" * (3 * j)},
+            "suit-integrated-payloads": {}}}
+        desc = {"SUIT_Envelope_Tagged": {
+            "suit-authentication-wrapper": {"SuitDigest": {"suit-digest-algorithm-id": "cose-alg-sha-256"}},
+            "suit-manifest": {"suit-manifest-version": 1, "suit-manifest-sequence-number": j,
+                              "suit-common": {"suit-components": [["R", j]]},
+                              "suit-install": [{"suit-directive-set-component-index": 0}, {"suit-directive-override-parameters": {
+                                  "suit-parameter-image-digest": {"suit-digest-algorithm-id": "cose-alg-sha-256", "suit-digest-bytes": {"envelope": dep}},
+                                  "suit-parameter-image-size": {"envelope": dep}}}]},
+            "suit-integrated-dependencies": {"#dep.suit": dep}}}
+        del dep["SUIT_Envelope_Tagged"]["suit-integrated-payloads"]
+        pj, py = os.path.join(dd, "in.json"), os.path.join(dd, "in.yaml")
+        with open(pj, "w") as fh:
+            json.dump(desc, fh)
+        with open(py, "w") as fh:
+            _y.dump(desc, fh, sort_keys=False)          # the shared object is written as an anchor and aliases
+        ops.append({"kind": "create", "input": pj, "twin": len(ops) + 1, "nested": True})
+        ops.append({"kind": "create", "input": py, "twin": len(ops) - 1, "nested": True})
     # payload extraction into a cache: several payloads and a dependency that itself carries payloads (order matters)
     import cbor2 as _c
     inner = _c.dumps(_c.CBORTag(107, {2: b"\x81\x40", 3: b"\xa0", "#z_in": b"\x01" * 5, "#a_in": b"\x02" * 7, "#m_in": b"\x03" * 9}))
@@ -380,7 +407,12 @@ def run(tier, seed):
                 order = dam * 3 + [i for i, op in enumerate(ops) if op.get("after_damaged")]     # rejected parses first, three rounds
             if h == 5 and socops:
                 order = [i for i, op in enumerate(ops) if op["kind"] == "boot" and "soc" not in op] + socops[::-1] + socops[:1]
-            if h % 3 == 0:
+            nested = [i for i, op in enumerate(ops) if op.get("nested")]
+            if h == 6 and nested:
+                order = []
+                for _ in range(4 if not ck.deep else 8):
+                    order += ck.rng.sample(nested, len(nested))      # 64 creates of hierarchies with inline dependencies, one interpreter
+            if h % 3 == 0 and h != 6:
                 order = ck.rng.sample(range(n), min(n, 6))
                 order = order + order[:2]                      # an operation repeated after others ran
             hs = ck.rng.choice(["0", "1", "2", "random"])
